@@ -1,6 +1,7 @@
 import Bpmn.Props.C09
 import Bpmn.Props.C09Current
 open Bpmn.Props.C09
+#print axioms C09_holds
 #print axioms tracer_segment
 #print axioms tracer_segment_bounds
 #print axioms tracer_same_order
@@ -11,8 +12,14 @@ open Bpmn.Props.C09
 #print axioms tracer_nodrain_deadlock
 #print axioms progress_dichotomy
 #print axioms unsubscribe_unsubscribed_spins
+#print axioms relay_lossless_if_subscribed_first
+#print axioms relay_late_subscription_loses_prefix
+#print axioms relay_dichotomy
+#print axioms flows_causal
 #print axioms current_channels_unbuffered
 #print axioms current_ack_channels
 #print axioms current_broadcast_shape
 #print axioms current_default_cap_known
 #print axioms current_progress
+#print axioms current_relay
+#print axioms current_positive_sides
